@@ -8,7 +8,7 @@ import (
 
 // New returns a new namer.
 func New() *Namer {
-	return &Namer{lookup: map[string]struct{}{xtype.ThisVar: {}}}
+	return &Namer{lookup: map[string]struct{}{xtype.ThisVar: {}, "err": {}}}
 }
 
 // Namer keeps track of used variable names.
